@@ -3,7 +3,9 @@
 1-2 real proxies (each owned by its own client thread) open 1-4 streams (generator / list iterator; empty, short, long,
 raising at position k) on a real Daemon (both server types) and then run a plan of next / close / release / reconnect /
 drop (the network resets the proxy's connection between two calls) / advance steps; on the thread server a COMMTIMEOUT may
-additionally make the server close idle connections by itself.  The driver hands the steps to the owning client thread one at a time, so the plan order is the real order of
+additionally make the server close idle connections by itself.  A 'par' step releases two client threads of different
+proxies at the same instant (one loses / releases its connection, the other opens / fetches from / closes one of its own
+streams), and a client thread may carry a fixed correlation id (documented client API) with every call.  The driver hands the steps to the owning client thread one at a time, so the plan order is the real order of
 client operations; everything the server does on its own (housekeeping on its timers, noticing a disconnect, running the
 one-way close_stream call in its own thread) interleaves freely with them.
 
@@ -156,13 +158,20 @@ class StreamWorld(World):
             "{0,3,10}, 1-2 proxies, 1-4 stream sources (generator/list, 0-8 items, optional ValueError at position k), 6-26 ops "
             "open/next/close/release/reconnect/drop/advance{0.5..30 s} with optional settle after each (drop = the network resets "
             "the proxy's connection while nothing is in flight; 15% of the thread-server plans also set COMMTIMEOUT=3 s so that the "
-            "server closes idle connections itself), block/line pre-emption "
+            "server closes idle connections itself; par = {release|drop of one proxy} concurrently with {open|next|close on a stream "
+            "of the other proxy}; 25% of the plans give client threads a fixed correlation id, possibly shared by both), "
+            "block/line pre-emption "
             "probabilities; 22% of the plans end with the focus shape 'expiry race': a fresh stream is closed / fetched at the instant "
             "of the first housekeeping pass after its lifetime or linger ran out, with line pre-emption inside _housekeeping, "
-            "_clientDisconnect, _streamResponse, get_next_stream_item, close_stream); distinct = distinct interleaving digest; non-trivial = at least one item was fetched and at least "
+            "_clientDisconnect, _streamResponse, get_next_stream_item, close_stream; 14% end with the focus shape 'disconnect while the table "
+            "changes': proxy A with two open streams disconnects at the instant at which proxy B creates / exhausts / closes a stream, "
+            "and comes back long after the linger period); distinct = distinct interleaving digest; non-trivial = at least one item was fetched and at least "
             "one stream was forgotten for a reason other than exhaustion (close, failure, lifetime, disconnect/linger) or "
             "resumed after a reconnect")
-    ASSUMPTIONS = ["client operations are sequential across proxies (the plan order); the server's own activity interleaves freely",
+    ASSUMPTIONS = ["client operations are sequential across proxies (the plan order) except inside a 'par' step, whose two operations touch "
+                   "streams of different proxies and are therefore independent in the model; the server's own activity interleaves freely",
+                   "when the server's disconnect step fails before reaching the clientDisconnect hook the connection has ended all the "
+                   "same: linger counts from the end of that step",
                    "a stream whose lifetime/linger has elapsed may still answer until the next observed housekeeping pass and must "
                    "be gone after it; exactly at the limit either is accepted",
                    "next() after exhaustion or after a client-side close() is expected to raise StopIteration locally (DESIGN.md C10), "
